@@ -30,6 +30,7 @@ def register(reg):
     from .base import TObj
     reg.add(Contract("iface:Info.units", pure=True, verify=False, result_fn=lambda ctx: ctx.get(ctx.self, "$units")))
     reg.add(Contract("iface:Info.time", pure=True, verify=False, result_fn=lambda ctx: ctx.get(ctx.self, "$itime")))
+    reg.add(Contract("iface:Info.grid", pure=True, verify=False, result_fn=lambda ctx: ctx.get(ctx.self, "$grid")))
 
     # ---- IInput.source_updated(time): a target may pull upstream (get_data), which only evicts:
     #      every buffer stays a suffix of what it was and keeps its newest entry
